@@ -323,9 +323,15 @@ func run(id, tier string, seed uint64, jobs int, keep bool) int {
 	}
 
 	wall := time.Since(start).Seconds()
+	evalsReported, distinctReported := evals, len(hashes)
+	if x := stats["evaluations.extra"]; x > 0 { // cases that enumerate sub-executions (fault points, crash images, schedules)
+		evalsReported = int(x)
+		distinctReported = int(stats["nontrivial.extra"])
+	}
 	cov := map[string]interface{}{
-		"evaluations":         evals,
-		"distinct_nontrivial": len(hashes),
+		"evaluations":         evalsReported,
+		"distinct_nontrivial": distinctReported,
+		"top_level_cases":     evals,
 		"rule":                meta.Rule,
 		"samples":             samples,
 		"exhaustive":          meta.Exhaustive,
@@ -359,8 +365,12 @@ func run(id, tier string, seed uint64, jobs int, keep bool) int {
 		"coverage": cov, "assumptions": meta.Assumptions, "wall_s": wall, "violations": newViol,
 	}
 	eb, _ := json.MarshalIndent(ev, "", " ")
-	os.MkdirAll(filepath.Join(verifDir, "evidence"), 0755)
-	os.WriteFile(filepath.Join(verifDir, "evidence", id+".json"), eb, 0644)
+	evDir := filepath.Join(verifDir, "evidence")
+	if d := os.Getenv("VERIF_EVIDENCE_DIR"); d != "" {
+		evDir = d // runs against scratch copies (mutants) must not overwrite the real evidence
+	}
+	os.MkdirAll(evDir, 0755)
+	os.WriteFile(filepath.Join(evDir, id+".json"), eb, 0644)
 
 	fmt.Printf("property=%s tier=%s seed=%d cases=%d distinct_nontrivial=%d violations=%d known=%d wall=%.1fs\n",
 		id, tier, seed, evals, len(hashes), newViol, len(knownSeen), wall)
@@ -376,7 +386,7 @@ func run(id, tier string, seed uint64, jobs int, keep bool) int {
 	if len(inconc) > 0 && len(inconc)*100 > evals {
 		return inconclusive("too-many-inconclusive-cases")
 	}
-	if len(hashes) < 2 {
+	if distinctReported < 2 {
 		return inconclusive("fewer than two distinct non-trivial cases")
 	}
 	return 0
